@@ -142,6 +142,7 @@ def execute(case, chooser):
     gwsim.check_harness(res, allow_reasons=("quiescent", "time-cap"))
     hist = L.Hist(res)
     V, fired = oracle(case, res, hist)
+    V += gwsim.livelock_violation(res, f"{case['topo']};{case['how']}")
     sample = None
     if chooser.rng is not None and chooser.rng.random() < 0.004:
         sample = {k: case.get(k) for k in ("topo", "gateways", "progs", "how", "streaming", "knobs", "strategy")}
